@@ -4,6 +4,7 @@ package harness
 
 import (
 	"fmt"
+	"sync/atomic"
 	"time"
 
 	"verif/simnet"
@@ -26,11 +27,18 @@ func setupC05(x *Ctx) {
 	}
 	lat := []time.Duration{0, time.Millisecond, 20 * time.Millisecond, 300 * time.Millisecond}[x.Choose("latency", 4)]
 	asym := x.Chance("asym-latency", 0.25)
+	// a partition that heals: whatever is sent (connection requests included) while
+	// it lasts arrives when it ends - what TCP retransmission does
+	var partitionUntil atomic.Int64
 	x.Net.Latency = func(cn *simnet.Conn) time.Duration {
+		d := lat
 		if asym && cn.Node() == "A" {
-			return lat * 3
+			d = lat * 3
 		}
-		return lat
+		if now, until := x.S.Now(), time.Duration(partitionUntil.Load()); now < until && until-now > d {
+			d = until - now
+		}
+		return d
 	}
 	mdnsDelay := []time.Duration{0, 10 * time.Millisecond, time.Second, 4 * time.Second}[x.Choose("mdns-delay", 4)]
 	r.eth.Delay = func() time.Duration {
@@ -84,6 +92,8 @@ func setupC05(x *Ctx) {
 	kinds := c05Disturb
 	if !x.Feat(FeatCrash) {
 		kinds = c05Disturb[:7]
+	} else if x.Feat(FeatPartition) {
+		kinds = append(append([]string(nil), c05Disturb...), "partition-heal")
 	}
 	for i := 0; i < nDist; i++ {
 		dist = append(dist, kinds[x.Choose("disturbance", len(kinds))])
@@ -179,6 +189,12 @@ func setupC05(x *Ctx) {
 				x.Probe(d)
 				simrt.Sleep(time.Duration([]int{0, 1, 5, 30, 130}[x.Choose("downtime", 5)]) * time.Second)
 				b.restart(a)
+			case "partition-heal":
+				d := time.Duration([]int{2, 20, 55, 70, 130}[x.Choose("partition-s", 5)]) * time.Second
+				partitionUntil.Store(int64(x.S.Now() + d))
+				x.S.Fault("partition")
+				x.Probe("partition-heal")
+				simrt.Sleep(d)
 			case "mdns-outage":
 				r.eth.Down.Store(true)
 				simrt.Sleep(time.Duration(5+x.Choose("outage", 60)) * time.Second)
